@@ -175,7 +175,42 @@ SKELETONS = [
     "!('S0' == 'S1')", "'S0' < 'S1' && 'S1' < 'S0'", "or('S0', \"D1\")", "'S0' != 'S1' && !'S0'",
     "strip('S0') == 'S1'", "if-then-else('S0', 'S1', 'S0')",
 ]
-_PARSED = [SP.IfExpressionParser.getInstance().parseExpression(s) for s in SKELETONS]
+N_HAND = len(SKELETONS)
+
+
+def _gen_skeletons(ops):
+    """every expression of nesting depth <= 2 the documented grammar allows over the given binary operators and '!',
+    well typed or not (a comparison of a boolean result is grammatical; its operand type is documented as String)"""
+    lit = ["'S0'", "'S1'"]
+    d1 = [lit[0], '!' + lit[0]] + ['%s %s %s' % (lit[0], o, lit[1]) for o in ops]
+    out = []
+    for a in d1[1:]:
+        out.append('!(%s)' % a)
+        out.append('!%s' % a)                  # precedence decides: !'S0' == 'S1' is (!'S0') == 'S1'
+    for o in ops:
+        for a in d1:
+            for b in d1:
+                if a in lit and b in lit:
+                    continue
+                out.append('%s %s %s' % (a if a in lit else '(%s)' % a, o, b if b in lit else '(%s)' % b))
+                if a not in lit and not a.startswith('!'):
+                    out.append('%s %s %s' % (a, o, lit[0]))       # chained: 'S0' == 'S1' == 'S0'
+    seen, res = set(), []
+    for x in out:
+        if x not in seen:
+            seen.add(x)
+            res.append(x)
+    return res
+
+
+GEN_QUICK = _gen_skeletons(['==', '&&'])
+GEN_ALL = GEN_QUICK + [x for x in _gen_skeletons(['==', '<', '!=', '&&', '||']) if x not in GEN_QUICK]
+SKELETONS = SKELETONS + GEN_ALL
+# only the skeleton of this condition is parsed (at import time, outside the tracer): pyparsing's infix_notation
+# takes ~50 ms per expression
+_PARSED = {}
+if isinstance(V.SHARD, list) and V.SHARD and isinstance(V.SHARD[0], int) and 0 <= V.SHARD[0] < len(SKELETONS):
+    _PARSED[V.SHARD[0]] = SP.IfExpressionParser.getInstance().parseExpression(SKELETONS[V.SHARD[0]])
 
 
 def rebuild(node, vals):
@@ -215,7 +250,8 @@ def ref_str(t, ctx):
         return t[1]
     if k == 'call':
         return R.call(ctx, t[1], [ref_str(a, ctx) for a in t[2]])
-    raise V.HarnessGap('not a string node')
+    # "Operand type: String" (bobpaths(7), operator table): the result of an operator is a boolean and not a string
+    raise R.RefError()
 
 
 def ref_bool(t, ctx):
@@ -303,7 +339,12 @@ def PLAN(tier):
     P.append(dict(fn='check_single_quote', shard=[4 if q else 6], timeout=150 if q else 600))
     P.append(dict(fn='check_escape', shard=[3 if q else 5], timeout=150 if q else 600))
     for k in range(len(SKELETONS)):
-        n = (1 if k in BOOLISH else 2) if q else (2 if k in BOOLISH else 3)
+        if k >= N_HAND:
+            if q and SKELETONS[k] not in GEN_QUICK:
+                continue
+            n = 1 if q else 2
+        else:
+            n = (1 if k in BOOLISH else 2) if q else (2 if k in BOOLISH else 3)
         P.append(dict(fn='check_ifexpr', shard=[k, n], timeout=150 if q else 900))
     return P
 
